@@ -1627,6 +1627,10 @@ func callBin(n *node) {
 			var defType reflect.Type
 			if variadic >= 0 && i+rcvrOffset >= variadic {
 				defType = funcType.In(variadic)
+				if n.action != aCallSlice {
+					// The argument is an element of the variadic parameter.
+					defType = defType.Elem()
+				}
 			} else {
 				defType = funcType.In(rcvrOffset + i)
 			}
